@@ -70,7 +70,7 @@ def selects(body):
         for st in body.blocks[bb]["stmts"]:
             if st["k"] == "assign" and st["rv"]["k"] == "agg" and st["rv"]["ak"] == "tuple" and "macro:$crate::select" in st.get("exp", "") and not st["pl"]["p"]:
                 o = body.origin_rvalue(st["rv"])
-                if o[4] and all(peel(v)[0] in ("call", "field", "arg", "upvar", "var") for v in o[4].values()):
+                if o[4] and all(peel(v)[0] in ("call", "field", "arg", "upvar", "var", "agg") for v in o[4].values()):
                     tuples[st["pl"]["l"]] = (bb, [peel(o[4][str(i)]) for i in range(len(o[4]))])
     for bb in sorted(body.live_blocks()):
         info = body.switch_info(bb)
